@@ -414,6 +414,7 @@ func (ega *EnhancedGroupAggregator) AddPostAggregationExpression(outputField, or
 
 	// Add individual aggregation fields to the base aggregator (only if not already exists)
 	for _, field := range requiredFields {
+		field := field // captured by the expression evaluator registered below
 
 		// For parameterized functions, always recreate the aggregator with correct parameters
 		// even if it already exists (it was created with default parameters)
